@@ -18,6 +18,7 @@ func init() { register("C15", checkC15) }
 func checkC15(c *chk.Ctx) {
 	h := newH(c)
 	c.Decided = []string{
+		"R15g an index comparison-get answers with the secondary key of the entry it chose (the client merges the per-shard answers of floor/ceiling/lower/higher by that key)",
 		"R15a index maintenance: an overwrite removes every index entry of the existing record before the new ones are written; a put writes every declared index entry; delete / delete-with-entry / range delete remove the entries of the record they delete; the apply functions call the callback before the record mutation (shared with C14)",
 		"R15b the key format written, the range-prefix format used by queries and the parsing regular expression are derived from each other (checked on the compile-time constant values)",
 		"R15c a comparison get only returns a record whose index key carries the requested index's prefix; list / range-scan bound their scan inside that prefix",
@@ -34,6 +35,7 @@ func checkC15(c *chk.Ctx) {
 	ruleR15b(h)
 	ruleR15c(h)
 	ruleR15d(h)
+	ruleR15g(h)
 	h.Rule("R15e", "K6", "the wrapper callback runs the index callback only after the session callback accepted the operation (no error, status OK) — shared with R14b", 4)
 	ruleWrapperChain(h, "R15e")
 	ruleR12fInto(h, "R15f")
@@ -658,4 +660,65 @@ func indexPrefixTerminated(h *H, prefix ssa.Value) (bool, string) {
 		return true, ""
 	}
 	return false, "the membership prefix does not contain the requested index name"
+}
+
+// ruleR15g: a comparison get on an index without partition key goes to every shard; the
+// client keeps the best candidate by comparing GetResponse.SecondaryIndexKey and falls
+// back to the primary key when the field is absent. The server-side index get therefore
+// has to set that field from the secondary key of the entry its walk selected.
+func ruleR15g(h *H) {
+	const rule = "R15g"
+	h.Rule(rule, "K6", "the function that answers an index comparison-get stores GetResponse.SecondaryIndexKey from the secondary key returned by the index walk", 1)
+	dbKeyIter := ir.Callee{Pkg: "server/kv", Recv: "DB", Name: "KeyIterator"}
+	n := 0
+	for _, s := range h.P.AllCalls(ir.InPkg("server"), dbKeyIter) {
+		walk := s.Fn
+		isGet := false
+		for _, p := range walk.Params {
+			if ir.TypeIs(p.Type(), "proto", "GetRequest") {
+				isGet = true
+			}
+		}
+		if !isGet {
+			continue
+		}
+		for _, site := range ir.StaticCallSites(walk) {
+			caller := site.Parent()
+			n++
+			h.Fn(ir.FuncName(caller))
+			// stores to the field anywhere in the caller's region
+			ok := false
+			for _, g := range helperFuncs(caller) {
+				ir.Instrs(g, func(in ssa.Instruction) {
+					st, isSt := in.(*ssa.Store)
+					if !isSt {
+						return
+					}
+					r, isF := ir.FieldAddrOf(st.Addr)
+					if !isF || !r.Is("proto", "GetResponse", "SecondaryIndexKey") {
+						return
+					}
+					fromWalk := func(v ssa.Value) bool {
+						ex, isEx := v.(*ssa.Extract)
+						return isEx && ex.Tuple == site.Value() && ex.Index == 1
+					}
+					if ir.DependsOn(st.Val, fromWalk) {
+						ok = true
+					}
+					// `&secondaryKey`: the address of the local that holds it
+					if al, isAl := st.Val.(*ssa.Alloc); isAl {
+						for _, s2 := range ir.AllStores(al) {
+							if ir.DependsOn(s2.Val, fromWalk) {
+								ok = true
+							}
+						}
+					}
+				})
+			}
+			h.Verdict(ok, rule, "secondary key in the answer of "+ir.FuncName(caller), h.pos(site), "GetResponse.SecondaryIndexKey = the secondary key of the selected entry", "the index get does not report the secondary key of the entry it selected: the client then merges the per-shard candidates of floor / ceiling / lower / higher by primary key and returns the wrong record whenever the two orders differ")
+		}
+	}
+	if n == 0 {
+		h.Anchor(rule, "the caller of the index comparison-get walk")
+	}
 }
